@@ -94,7 +94,19 @@ def runParse (line : String) : String :=
     | none => "bad-op"
   | _ => "bad-op"
 
+/-- stream `c17_child` : (child xCHILD xPARENT) → true | false  (Path::is_child_of), plus the segments of both -/
+def runChild (line : String) : String :=
+  match Sexp.parse line with
+  | some (.list [.atom "child", a, b]) =>
+    match a.str?, b.str? with
+    | some a, some b =>
+      let r := isChildOf a.toList b.toList
+      let segs (p : String) := " ".intercalate ((segments p).map atomOfString)
+      s!"{r} ({segs a}) ({segs b})\t{r}"
+    | _, _ => "bad-op"
+  | _ => "bad-op"
+
 def streams : List (String × (String → String)) :=
-  [("c17", runC17), ("c17_min", runMin), ("c17_parse", runParse)]
+  [("c17", runC17), ("c17_min", runMin), ("c17_parse", runParse), ("c17_child", runChild)]
 
 end EmitModel.Driver.C17
